@@ -13,13 +13,14 @@ import os
 from pathlib import Path
 from typing import Any
 
-from .. import common, genrun, specgen
+from .. import common, genrun, richgen, shapes, specgen
 from ..common import Ctx
 
 LEVEL = "exploration"
 SHARDS = {"quick": 16, "thorough": 16}
 FLOOR = {"quick": 150, "thorough": 3000}
-REQUIRED_COUNTERS = ["generations_accepted", "files_compiled", "modules_imported", "all_names_resolved", "probe_runs"]
+REQUIRED_COUNTERS = ["generations_accepted", "files_compiled", "modules_imported", "all_names_resolved", "probe_runs",
+                     "schema_shape_documents"]
 RULE = ("documents drawn from the seeded OpenAPI grammar (schema graphs with refs, allOf, oneOf/anyOf, arrays, maps, enums, nullable, "
         "formats, 5 property-name styles; operations with path/query/header params, path-level params, json/form/multipart/octet "
         "bodies, several 2xx/4xx/5xx/default responses) x 9 layouts x 3 naming strategies; a case = (document, layout, strategy); "
@@ -197,6 +198,22 @@ def run_shard(ctx: Ctx) -> None:
     bs = 10
     for b in range(0, total, bs):
         run_batch(ctx, make_items(ctx, bs, ctx.shard * 100000 + b))
+    # schema-centred inputs: the compositional grammar and the exhaustive shape catalogue, as models, as response bodies
+    # and as request bodies (everything emitted for them must compile and import as well)
+    extra = []
+    for k in range(2 if ctx.quick else 40):
+        allow = {"free_form_empty_schema", "object_with_extras"} if k % 2 else set()
+        extra.append(richgen.generate(ctx.rng, allow=allow))
+    cat = list(enumerate(shapes.all_shapes(2 if ctx.quick else 3)))
+    chunks = [cat[i:i + 30] for i in range(0, len(cat), 30)]
+    for ci, chunk in enumerate(chunks):
+        if ctx.mine(ci):
+            extra += [shapes.document(chunk), shapes.response_document(chunk), shapes.request_document(chunk)]
+    for k, d in enumerate(extra):
+        d.features = set(d.features) | {"schema_shapes"}
+        ctx.rec.count("schema_shape_documents")
+        run_batch(ctx, [{"doc": d, "layout": (ctx.shard + k) % len(LAYOUTS), "strategy": STRATEGIES[k % 3],
+                         "n": 500000 + ctx.shard * 1000 + k, "trigger": set()}])
     if not ctx.quick:
         docs = corpus_docs()
         for i, (name, doc) in enumerate(docs):
